@@ -22,8 +22,9 @@ RULE = ('polynomial programs R^N -> R^M (N,M <= 5) recorded at x_r with operand 
 ASSUMPTIONS = ['exact Fraction arithmetic for polynomial programs', 'forward-mode drivers are validated independently by C09',
                'drivers that reject a shape by an explicit ValueError are counted as unsupported (vec_hess_vec needs w.shape == x.shape)']
 DRIVERS = ['gradient', 'jacobian', 'hessian', 'jac_vec', 'vec_jac', 'hess_vec', 'vec_hess', 'vec_hess_vec', 'jacobian_utpm']
-REQUIRED = ['poly:' + d for d in DRIVERS] + ['prog:' + d for d in DRIVERS if d != 'jacobian_utpm'] + ['prog:gradient-list'] + ['wide:' + d for d in ('jacobian', 'jac_vec', 'vec_jac', 'gradient', 'hessian', 'hess_vec', 'vec_hess')]
+REQUIRED = ['poly:' + d for d in DRIVERS] + ['prog:' + d for d in DRIVERS if d != 'jacobian_utpm'] + ['prog:gradient-list'] + ['wide:' + d for d in ('jacobian', 'jac_vec', 'vec_jac', 'gradient', 'hessian', 'hess_vec', 'vec_hess')] + ['listrec']
 RECS = ['float', 'int', 'utpm11', 'utpm32']
+RECS_POLY = RECS + ['list']
 
 
 def cases(tier, seed):
@@ -39,6 +40,8 @@ def cases(tier, seed):
             out.append({'kind': 'prog', 'seed': case_seed('C04', seed, name, rep), 'params': {'prog': name, 'rec': RECS[(rep + len(name)) % 4]}})
     for i in range(60 if tier == 'quick' else 20000):
         out.append({'kind': 'prog', 'seed': case_seed('C04', seed, 'comp', i), 'params': {'prog': 'comp', 'rec': RECS[i % 4]}})
+    for i in range(6 if tier == 'quick' else 120):
+        out.append({'kind': 'listrec', 'seed': case_seed('C04', seed, 'listrec', i), 'params': {'N': 1 + i % 3, 'first': ['jacobian', 'vec_jac', 'jac_vec', 'gradient', 'hessian', 'hess_vec'][i % 6]}})
     # many dependents / many independents (a residual vector of a fit, a discretised field): sizes beyond any block a driver may use
     for k, (N, M) in enumerate([(3, 65), (4, 130), (70, 2), (3, 64), (130, 1)] if tier == 'quick' else
                                [(3, 65), (4, 130), (70, 2), (3, 64), (130, 1), (2, 257), (5, 300), (260, 3), (33, 33), (1, 1025)]):
@@ -121,6 +124,8 @@ def _dup(rng, cg):
 
 
 def _rec_operand(kind, x, rng):
+    if kind == 'list':
+        return [float(v) for v in np.ravel(x)]          # a Python list of floats, as in the docstring of CGraph.gradient
     if kind == 'float':
         return np.array(x, dtype=float)
     if kind == 'int':
@@ -151,7 +156,42 @@ def run_case(ctx, case):
         return _gradlist(ctx, case['params'], rng)
     if case['kind'] == 'wide':
         return _wide(ctx, case['params'], rng)
+    if case['kind'] == 'listrec':
+        return _listrec(ctx, case['params'], rng)
     return _prog(ctx, case['params'], rng)
+
+
+def _listrec(ctx, p, rng):
+    """the graph is recorded as in the docstring of CGraph.gradient - the independent is a Python list of floats, so the recorded
+    values are Python floats - and a driver is called on the FRESH graph (each driver in turn is the first call)"""
+    N, first = p['N'], p['first']
+    poly = PP.random_poly(rng, N, 4, 4)
+    xr = np.round(rng.normal(size=N), 2)
+    try:
+        cg = algopy.CGraph()
+        x = algopy.Function([float(v) for v in xr])
+        y = PP.evaluate(algopy, [poly], x, 1)                    # scalar: plain arithmetic on the entries x[i]
+        cg.trace_off()
+        cg.independentFunctionList = [x]; cg.dependentFunctionList = [y]
+    except Exception:
+        ctx.skip('not-traceable:listrec'); return
+    x1 = np.round(rng.normal(size=N), 3); xq = [Fraction(float(v)) for v in x1]
+    g = np.array([_fl(poly.diff(i)(xq)) for i in range(N)]); ga = np.array([_fl(poly.diff(i).absval(xq)) for i in range(N)]) + 1e-12
+    H = np.array([[_fl(poly.diff(i).diff(j)(xq)) for j in range(N)] for i in range(N)]); Ha = np.max(np.abs(H)) + np.max(ga)
+    v = np.round(rng.normal(size=N), 2)
+    calls = {'jacobian': (lambda: np.asarray(cg.jacobian(x1.copy())).reshape(N), g, ga), 'vec_jac': (lambda: np.asarray(cg.vec_jac(np.array([1.0]), x1.copy())).reshape(N), g, ga),
+             'jac_vec': (lambda: np.asarray(cg.jac_vec(x1.copy(), v.copy())).reshape(()), g @ v, ga @ np.abs(v)), 'gradient': (lambda: cg.gradient(x1.copy()), g, ga),
+             'hessian': (lambda: cg.hessian(x1.copy()), H, np.full((N, N), Ha)), 'hess_vec': (lambda: cg.hess_vec(x1.copy(), v.copy()), H @ v, np.full(N, Ha * (np.sum(np.abs(v)) + 1e-12)))}
+    for name in [first] + [k for k in calls if k != first]:
+        call, ref, sc = calls[name]
+        mech = 'listrec:%s:%s' % (name, 'first-call-on-the-graph' if name == first else 'later-call')
+        try:
+            got = call()
+        except Exception as e:
+            ctx.violation(mech + ':raises', {'N': N, 'driver': name, 'error': str(e)[-200:]}); return
+        if not _cmp(ctx, mech, got, np.asarray(ref, dtype=float), np.asarray(sc, dtype=float) + 1e-12, {'N': N, 'driver': name}):
+            return
+        ctx.ok('listrec', ('listrec', name, name == first, N))
 
 
 def _wide(ctx, p, rng):
